@@ -96,14 +96,17 @@ def run(fn, start, env, stop_pred, P=None, call_value=None, max_steps=400, exit_
     return first
 
 
-def run_all(fn, start, env, stop_pred, P=None, call_value=None, max_steps=400, exit_blocks=(), _budget=None):
+def run_all(fn, start, env, stop_pred, P=None, call_value=None, max_steps=400, exit_blocks=(), _budget=None, notable=None):
     """All outcomes of following the CFG from `start`; a condition that cannot be evaluated because it reads state the
     rule does not track (a lock pointer, a debug mask) forks into both edges (at most 64 forks)."""
     if _budget is None:
-        _budget = [64]
+        _budget = [512]
     res = []
+    _budget.append(set())      # states already explored at block entry (forks that re-join with an identical environment stop)
+    _budget.append(notable)
     o = _run1(fn, start, env, stop_pred, P, call_value, max_steps, exit_blocks, res, _budget)
-    return [o] + res
+    outs = [x for x in [o] + res if x.kind != "dup"]
+    return outs or [o]
 
 
 def _run1(fn, start, env, stop_pred, P, call_value, max_steps, exit_blocks, forks, budget):
@@ -142,10 +145,21 @@ def _run1(fn, start, env, stop_pred, P, call_value, max_steps, exit_blocks, fork
         k = l[1] if is_e(l, "var") else key(l)
         return env.get(k)
 
+    visited = budget[1] if len(budget) > 1 else None
+    notable = budget[2] if len(budget) > 2 else None
     while True:
         blk = fn.blocks[bid]
         if bid in exit_blocks or bid == fn.exit:
             return Outcome("exit", bid, env, trace)
+        if visited is not None and idx == 0:
+            try:
+                fp = (bid, frozenset(env.items()))
+            except TypeError:
+                fp = None
+            if fp is not None:
+                if fp in visited:
+                    return Outcome("dup", bid, env, trace)
+                visited.add(fp)
         for el in blk.elems[idx:]:
             steps += 1
             if steps > max_steps:
@@ -155,9 +169,30 @@ def _run1(fn, start, env, stop_pred, P, call_value, max_steps, exit_blocks, fork
             e = el.e
             k = e[0]
             trace.append(el)
+            if notable is not None:
+                nm = notable(el)
+                if nm is not None:
+                    tr = env.get("#trace", ())
+                    if not (tr and tr[-1] == nm and nm.startswith("TAILQ_")):
+                        env["#trace"] = tr + (nm,)
             try:
                 if k == "call":
                     v = call_value(el, env) if call_value else None
+                    if isinstance(v, list):
+                        # nondeterministic callee: [(value, {key: newvalue}), ...]; first continues here, the others fork
+                        for av, upd in v[1:]:
+                            if budget[0] <= 0:
+                                return Outcome("unknown", el, env, trace, "fork budget exhausted")
+                            budget[0] -= 1
+                            env2 = dict(env)
+                            env2.update(upd)
+                            if av is not None:
+                                env2[nkey(e)] = av
+                            else:
+                                env2.pop(nkey(e), None)
+                            forks.append(_run1(fn, (bid, el.idx + 1), env2, stop_pred, P, call_value, max_steps, exit_blocks, forks, budget))
+                        v, upd = v[0]
+                        env.update(upd)
                     if v == "impure":
                         return Outcome("unknown", el, env, trace, "call %s outside the pure fragment" % show(e)[:60])
                     if v is not None:
@@ -249,9 +284,10 @@ def _run1(fn, start, env, stop_pred, P, call_value, max_steps, exit_blocks, fork
                 nxt = None
                 dflt = None
                 for s, l in succ:
-                    if l.startswith("case ") and int(l.split()[1]) == v:
+                    lab = fn.blocks[s].label
+                    if lab and lab[0] == "case" and lab[1] == v:
                         nxt = s
-                    if l == "default":
+                    elif lab and lab[0] == "default":
                         dflt = s
                 if nxt is None:
                     nxt = dflt
@@ -271,7 +307,14 @@ def _run1(fn, start, env, stop_pred, P, call_value, max_steps, exit_blocks, fork
         except EvalError as ex:
             tracked = any((nkey(q) in unknown or (is_e(q, "var") and q[1] in unknown)) for q in walk(normx(c)) if isinstance(q, list) and q and q[0] in ("var", "fld", "deref", "idx"))
             labs = [s for s, l in succ if l in ("T", "F")]
-            if tracked or budget[0] <= 0 or len(labs) != 2:
+            if t.get("k") == "switch" and len(succ) >= 2 and budget[0] >= len(succ):
+                labs = [s for s, l in succ]
+                for s_ in labs[1:]:
+                    budget[0] -= 1
+                    forks.append(_run1(fn, (s_, 0), env, stop_pred, P, call_value, max_steps, exit_blocks, forks, budget))
+                bid = labs[0]
+                continue
+            if budget[0] <= 0 or len(labs) != 2:
                 return Outcome("unknown", bid, env, trace, "cannot evaluate `%s`: %s" % (show(c)[:80], ex))
             budget[0] -= 1
             other = _run1(fn, (labs[1], 0), env, stop_pred, P, call_value, max_steps, exit_blocks, forks, budget)
